@@ -230,6 +230,7 @@ class H2Server:
         self.answered_ordinals: set[int] = set()
         self.deferred: dict[int, list] = {}
         self.out_frames = 0
+        self.deferred_settings: list = []
         self.mut_done = False
         self.mut_close = False
 
@@ -400,6 +401,9 @@ class H2Server:
         elif isinstance(ev, h2.events.StreamReset):
             self.pending_out.pop(ev.stream_id, None)
             self.held = [(r, p) for r, p in self.held if r.stream_id != ev.stream_id]
+        elif isinstance(ev, h2.events.SettingsAcknowledged):
+            if self.deferred_settings and not self.ledger.pending_settings:
+                self._send_settings(self.deferred_settings.pop(0))
         elif isinstance(ev, h2.events.WindowUpdated):
             pass
         elif isinstance(ev, h2.events.ConnectionTerminated):
@@ -501,6 +505,11 @@ class H2Server:
         elif pol == "none":
             pass
 
+    def _send_settings(self, s: dict) -> None:
+        self.conn.update_settings(s)
+        self._flush()
+        self.ledger.server_sent_settings(s, self.tr.produced)
+
     # scripted actions --------------------------------------------------------------
     def _actions(self, when: str, req: Req) -> None:
         for act in self.script.get("actions", []):
@@ -537,9 +546,14 @@ class H2Server:
                 self._flush()
             elif do == "settings":
                 s = dict(act["settings"])
-                self.conn.update_settings(s)
-                self._flush()
-                self.ledger.server_sent_settings(s, self.tr.produced)
+                if self.ledger.pending_settings:
+                    # The h2 package (server role) applies a pending change on the next ACK it receives - also when that
+                    # ACK is for an earlier SETTINGS frame (the initial one). A scripted change is therefore sent only
+                    # once everything before it has been acknowledged, so that the server role enforces a lowered limit
+                    # exactly when the client has agreed to it.
+                    self.deferred_settings.append(s)
+                else:
+                    self._send_settings(s)
             elif do == "ping":
                 self.conn.ping(b"hvpingpg")
                 self._flush()
